@@ -4,9 +4,9 @@ package main
 
 import (
 	"fmt"
-	"os"
 	"go/token"
 	"go/types"
+	"os"
 	"strings"
 
 	"golang.org/x/tools/go/ssa"
@@ -804,7 +804,10 @@ func runC11(c *Ctx) {
 		}
 		// only if ok and no error
 		if gcCall != nil && !hasFact(in, func(ft fact) bool {
-			return boolFact(ft, func(v ssa.Value) bool { ex, ok := v.(*ssa.Extract); return ok && ex.Tuple == ssa.Value(gcCall) && ex.Index == 1 }, true)
+			return boolFact(ft, func(v ssa.Value) bool {
+				ex, ok := v.(*ssa.Extract)
+				return ok && ex.Tuple == ssa.Value(gcCall) && ex.Index == 1
+			}, true)
 		}) {
 			o.Fail(in.Pos(), "the datagram is written although %s did not report a usable conn", fname(G))
 		}
